@@ -8,6 +8,7 @@ let runners : (string * (string -> string list -> string list list -> (string ->
   ("C10", Drv_c10.run);
   ("C02", Drv_c02.run);
   ("C16", Drv_c16.run);
+  ("C14", Drv_c14.run);
 ]
 
 (* optional third argument: the harness output for the same cases (for models that need
